@@ -2,6 +2,7 @@ package rules
 
 import (
 	"fmt"
+	"go/types"
 	"strings"
 
 	"golang.org/x/tools/go/ssa"
@@ -125,6 +126,7 @@ func runC16(c *Ctx) {
 		// no-directories error
 		c16NoDirs(c, ws, "write")
 	}
+	c16TempRemoved(c)
 	if rs != nil {
 		var call ssa.CallInstruction
 		rPath, call = pathExpr(rs, "", "os.Remove", 0)
@@ -299,6 +301,7 @@ func runC16(c *Ctx) {
 			ok = !skip
 			detail = fmt.Sprintf("%d keeping instruction(s), an iteration can finish without one: %v", len(keeps), skip)
 		}
+		specDirsCleanOnly(c, "C16.3", "specdirs-clean-only", "the last directory's name is the cleaned form of what was given: write, remove and the scan address the same place")
 		r.Check("C16.3", "specdirs-kept-in-order", ok, c.U.Pos(opt.Pos()), "WithSpecDirs keeps every given directory (cleaned), in the given order - the last one given is the last one configured, also when it was given before ("+detail+")")
 	}
 	// ---- C16.3 last-dir
@@ -361,4 +364,146 @@ func c16NoDirs(c *Ctx, fn *ssa.Function, what string) {
 		}
 	}
 	c.R.Check("C16.3", what+"-no-dirs", ok, c.U.Pos(fn.Pos()), "without configured directories the operation fails instead of touching some other place")
+}
+
+// specDirsCleanOnly: whatever WithSpecDirs puts into the configured list is
+// filepath.Clean(given element) - no other string is stored into it or appended to it.
+func specDirsCleanOnly(c *Ctx, rule, key, why string) {
+	ws := c.U.Func("cdi", "WithSpecDirs")
+	if ws == nil || len(ws.AnonFuncs) != 1 {
+		return
+	}
+	opt := ws.AnonFuncs[0]
+	isCleanElem := func(v ssa.Value) bool {
+		d := c.exprDesc(v)
+		return strings.HasPrefix(d, "path/filepath.Clean(elem(") && strings.HasSuffix(d, "dirs))")
+	}
+	isStrings := func(t types.Type) bool {
+		sl, ok := t.Underlying().(*types.Slice)
+		if !ok {
+			return false
+		}
+		b, ok := sl.Elem().Underlying().(*types.Basic)
+		return ok && b.Kind() == types.String
+	}
+	n, bad := 0, ""
+	ir.Instrs(opt, func(in ssa.Instruction) {
+		switch x := in.(type) {
+		case *ssa.Store:
+			if ia, isIA := x.Addr.(*ssa.IndexAddr); isIA && isStrings(ia.X.Type()) {
+				n++
+				if !isCleanElem(x.Val) {
+					bad += " " + c.pos(in) + ": stores " + c.exprDesc(x.Val) + ";"
+				}
+			}
+		case *ssa.Call:
+			if ir.BuiltinName(x) == "append" && isStrings(x.Type()) {
+				for _, ev := range c.U.ContainerElems(x.Call.Args[1]) {
+					n++
+					if !isCleanElem(ev) {
+						bad += " " + c.pos(in) + ": appends " + c.exprDesc(ev) + ";"
+					}
+				}
+			}
+		}
+	})
+	c.R.Check(rule, key, n > 0 && bad == "", c.U.Pos(opt.Pos()), fmt.Sprintf("WithSpecDirs configures exactly filepath.Clean(d) for each given d (%d storing site(s)): %s%s", n, why, bad))
+}
+
+// c16TempRemoved: a write whose final rename fails leaves nothing behind: from the error
+// edge of renameIn every path to a return removes the temporary file - directly, or through
+// a deferred clean-up whose condition (a captured error variable) is set on that path.
+func c16TempRemoved(c *Ctx) {
+	r := c.R
+	w := c.U.Func("cdi", "(*Spec).write")
+	if w == nil {
+		return
+	}
+	rns := c.callsTo(w, false, "cdi", "renameIn")
+	if len(rns) != 1 {
+		return
+	}
+	rn := rns[0]
+	var errEdges []ir.Edge
+	for _, iff := range ir.Ifs(w) {
+		if tv, nilSucc, ok := ir.NilTest(iff); ok && tv == rn.Value() {
+			errEdges = append(errEdges, ir.Edge{From: iff.Block(), Succ: 1 - nilSucc})
+		}
+	}
+	if len(errEdges) == 0 {
+		r.Undecided("C16.5", "temp-removed-on-failed-rename", c.pos(rn), "the result of renameIn is not tested against nil in (*Spec).write")
+		return
+	}
+	isRemove := func(in ssa.Instruction) bool {
+		call, ok := in.(ssa.CallInstruction)
+		if !ok {
+			return false
+		}
+		f := call.Common().StaticCallee()
+		return f != nil && f.String() == "os.Remove"
+	}
+	// deferred clean-up closures: os.Remove under nonnil(load of a captured cell)
+	var condCells []*ssa.Alloc
+	ir.Instrs(w, func(in ssa.Instruction) {
+		d, ok := in.(*ssa.Defer)
+		if !ok {
+			return
+		}
+		mc, ok := d.Call.Value.(*ssa.MakeClosure)
+		if !ok {
+			return
+		}
+		cl := mc.Fn.(*ssa.Function)
+		for _, call := range ir.Calls(cl) {
+			if !isRemove(call.(ssa.Instruction)) {
+				continue
+			}
+			for _, iff := range ir.Ifs(cl) {
+				tv, nilSucc, ok := ir.NilTest(iff)
+				if !ok {
+					continue
+				}
+				ld, isLoad := tv.(*ssa.UnOp)
+				if !isLoad {
+					continue
+				}
+				fv, isFV := ld.X.(*ssa.FreeVar)
+				if !isFV {
+					continue
+				}
+				e := ir.Edge{From: iff.Block(), Succ: 1 - nilSucc}
+				if !ir.OnlyViaEdge(cl, call.(ssa.Instruction), e) {
+					continue
+				}
+				for i, f := range cl.FreeVars {
+					if f == fv && i < len(mc.Bindings) {
+						if a, isAlloc := mc.Bindings[i].(*ssa.Alloc); isAlloc {
+							condCells = append(condCells, a)
+						}
+					}
+				}
+			}
+		}
+	})
+	cleans := func(in ssa.Instruction) bool {
+		if isRemove(in) {
+			return true
+		}
+		if st, ok := in.(*ssa.Store); ok {
+			for _, cell := range condCells {
+				if st.Addr == ssa.Value(cell) && ir.DefiniteNil(st.Val) != ir.IsNil {
+					return true // arms the deferred removal
+				}
+			}
+		}
+		return false
+	}
+	left := false
+	for _, e := range errEdges {
+		e := e
+		if ir.CanReach(w, ir.PathQuery{FromEdge: &e, Stop: cleans}) {
+			left = true
+		}
+	}
+	r.Check("C16.5", "temp-removed-on-failed-rename", !left, c.pos(rn), "when the final rename fails every path to the return removes the temporary file (directly, or by setting the error variable a deferred clean-up tests): a failed write leaves nothing behind in the Spec directory")
 }
